@@ -91,6 +91,16 @@ func freePorts(n int) []int {
 	return ports
 }
 
+// exited reports whether the child has terminated (a zombie still answers signal 0).
+func exited(pid int) bool {
+	b, err := os.ReadFile(fmt.Sprintf("/proc/%d/stat", pid))
+	if err != nil {
+		return true
+	}
+	i := bytes.LastIndexByte(b, ')')
+	return i >= 0 && i+2 < len(b) && (b[i+2] == 'Z' || b[i+2] == 'X')
+}
+
 func waitPort(port int, d time.Duration) bool {
 	deadline := time.Now().Add(d)
 	for time.Now().Before(deadline) {
@@ -127,22 +137,30 @@ func runC01Proc(c C01ProcCase, _ bool) *fOutcome {
 	}
 	pIn, pPull, pAdmin, pDead := ports[0], ports[1], ports[2], ports[3]
 	var targets []string
-	var cfg strings.Builder
-	fmt.Fprintf(&cfg, "ingress { listen 127.0.0.1:%d }\npull_api {\n  listen 127.0.0.1:%d\n  auth token raw:t\n}\nadmin_api { listen 127.0.0.1:%d }\n", pIn, pPull, pAdmin)
-	cfg.WriteString("defaults {\n  egress {\n    https_only off\n    dns_rebind_protection off\n  }\n  deliver {\n    retry exponential max 3 base 1h cap 1h jitter 0\n    timeout 1s\n  }\n}\n")
-	cfg.WriteString("/fan {\n")
 	for k := 0; k < c.Targets; k++ {
-		u := fmt.Sprintf("http://127.0.0.1:%d/t%d", pDead, k)
-		targets = append(targets, u)
-		fmt.Fprintf(&cfg, "  deliver %s {\n  }\n", q(u))
+		targets = append(targets, fmt.Sprintf("http://127.0.0.1:%d/t%d", pDead, k))
 	}
-	cfg.WriteString("}\n/p {\n  pull { path /pull/p }\n}\n")
 	cfgPath := filepath.Join(dir, "Hookaidofile")
 	dbPath := filepath.Join(dir, "q.db")
 	markPath := filepath.Join(dir, "mark")
-	_ = os.WriteFile(cfgPath, []byte(cfg.String()), 0o600)
-	start := func(crash bool) (*exec.Cmd, error) {
-		cmd := exec.Command(bin, "run", "--config", cfgPath, "--db", dbPath, "--log-level", "error")
+	// the listener ports are not part of the durable state: a restart may use other ports
+	writeCfg := func() {
+		var cfg strings.Builder
+		fmt.Fprintf(&cfg, "ingress { listen 127.0.0.1:%d }\npull_api {\n  listen 127.0.0.1:%d\n  auth token raw:t\n}\nadmin_api { listen 127.0.0.1:%d }\n", pIn, pPull, pAdmin)
+		cfg.WriteString("defaults {\n  egress {\n    https_only off\n    dns_rebind_protection off\n  }\n  deliver {\n    retry exponential max 3 base 1h cap 1h jitter 0\n    timeout 1s\n  }\n}\n")
+		cfg.WriteString("/fan {\n")
+		for _, u := range targets {
+			fmt.Fprintf(&cfg, "  deliver %s {\n  }\n", q(u))
+		}
+		cfg.WriteString("}\n/p {\n  pull { path /pull/p }\n}\n")
+		_ = os.WriteFile(cfgPath, []byte(cfg.String()), 0o600)
+	}
+	writeCfg()
+	// start returns the running process, or an error; env reports that the failure is the
+	// environment's (a port taken by another process in the meantime, or a start that did not finish
+	// within the budget on a saturated machine), which says nothing about the database.
+	start := func(crash bool) (cmd *exec.Cmd, err error, env bool) {
+		cmd = exec.Command(bin, "run", "--config", cfgPath, "--db", dbPath, "--log-level", "error")
 		cmd.Env = append(os.Environ(), "VERIF_STATS=", "VERIF_FAILDIR=")
 		if crash && c.Label != "" {
 			cmd.Env = append(cmd.Env, fmt.Sprintf("VERIF_CRASH=%s:%d", c.Label, c.Nth), "VERIF_CRASH_MARK="+markPath)
@@ -151,16 +169,24 @@ func runC01Proc(c C01ProcCase, _ bool) *fOutcome {
 		cmd.Stderr = &errb
 		cmd.Stdout = io.Discard
 		if err := cmd.Start(); err != nil {
-			return nil, err
+			return nil, err, true
 		}
-		if !waitPort(pIn, 5*time.Second) || !waitPort(pAdmin, 5*time.Second) || !waitPort(pPull, 5*time.Second) {
-			_ = cmd.Process.Kill()
-			_, _ = cmd.Process.Wait()
-			return nil, fmt.Errorf("process did not start listening: %s", errb.String())
+		deadline := time.Now().Add(20 * time.Second)
+		for _, port := range []int{pIn, pAdmin, pPull} {
+			for !waitPort(port, 50*time.Millisecond) {
+				// a process that has exited will never listen: stop waiting (signal 0 probes liveness)
+				if cmd.Process.Signal(syscall.Signal(0)) != nil || exited(cmd.Process.Pid) || time.Now().After(deadline) {
+					timedOut := time.Now().After(deadline)
+					_ = cmd.Process.Kill()
+					_, _ = cmd.Process.Wait()
+					msg := errb.String()
+					return nil, fmt.Errorf("process did not start listening: %s", msg), timedOut || strings.Contains(msg, "address already in use")
+				}
+			}
 		}
-		return cmd, nil
+		return cmd, nil, false
 	}
-	proc, err := start(true)
+	proc, err, _ := start(true)
 	if err != nil {
 		if _, e := os.Stat(markPath); e != nil {
 			out.Skipped = "start: " + err.Error()
@@ -300,7 +326,22 @@ func runC01Proc(c C01ProcCase, _ bool) *fOutcome {
 		_, _ = proc.Process.Wait()
 	}
 	// ---- restart and inspect
-	p2, err := start(false)
+	p2, err, env := start(false)
+	for try := 0; err != nil && env && try < 3; try++ {
+		np := freePorts(3)
+		if len(np) < 3 {
+			break
+		}
+		pIn, pPull, pAdmin = np[0], np[1], np[2]
+		writeCfg()
+		out.Labels["restart-retried-on-other-ports"] = true
+		p2, err, env = start(false)
+	}
+	if err != nil && env {
+		out.Skipped = "restart inconclusive (environment): " + err.Error()
+		out.Labels["inconclusive-environment"] = true
+		return out
+	}
 	if err != nil {
 		out.Failure = ffail("C01", "restart-failed", 0, "the process does not come up on the same database after the crash: %v", err)
 		return out
